@@ -285,6 +285,8 @@ class PE:
                 return ("i", _float_to_int(v[1], ty))
             if c == "FloatToFloat" and v[0] == "f":
                 return v
+            if c.startswith("PointerCoercion"):
+                return v      # unsizing / reborrow coercions do not change what is pointed to
             return UNK
         if k == "binop":
             a = self.operand(env, rv["a"])
